@@ -1,5 +1,6 @@
 import Lemmas.Funding
 import Lemmas.SpecInv
+import Lemmas.Allocate
 /-! Conservation facts about `Spec` (A1): what `assemble`, the sources, `takeFromSource` and the destinations do
 to totals.  Used by `Props/C03.lean` (`send_exact`, `dest_conserves`, `source_cap_respected`, …). -/
 namespace Num
@@ -314,5 +315,210 @@ theorem evalAllot_conserves (env : VEnv) : (items : AllotList) → (parts : List
     have h4 := evalAllot_conserves env rest ps c r st1 st' hr h3.choose_spec.2.2.2.1
     exact h3.trans h4
 end
+
+/-! ### sends -/
+
+/-- what a send does once its funding `f` is determined: the postings it appends add up to the funding minus
+what the destination keeps (which goes back to the sources) -/
+def SendOK (asset : Asset) (amount : Int) (st st' : St) : Prop :=
+  ∃ new kept, st'.postings = st.postings ++ new ∧ (∀ p ∈ new, 0 ≤ p.amt ∧ p.asset = asset) ∧
+    sumAmt new = amount - kept ∧ 0 ≤ kept
+
+theorem finishSend_ok {env : VEnv} {d : Dest} {f : Fund} {st st' : St} (h : finishSend env d f st = .ok st')
+    (hf : NonNeg f.parts) : SendOK f.asset (total f.parts) st st' := by
+  obtain ⟨rest, st1, hd, rfl⟩ := finishSend_inv h
+  obtain ⟨new, hp, hn, hs, hr, _⟩ := evalDest_conserves env d f rest st st1 hd hf
+  exact ⟨new, total rest.parts, hp, hn, by omega, total_nonneg hr⟩
+
+/-- the shares of a source allotment: each source delivers exactly its share -/
+theorem evalAllotSources_total (env : VEnv) (asset ma : Asset) :
+    (items : List (PortionSpec × Source)) → (parts : List Int) → (b b' : Bal) → (ts : List Fund) →
+    evalAllotSources env asset ma items parts b = .ok (ts, b') →
+    (∀ t ∈ ts, NonNeg t.parts ∧ t.asset = ma) ∧ items.length ≤ parts.length ∧
+      (ts.map (fun t => total t.parts)).sum = (parts.take items.length).sum ∧
+      ∀ y ∈ parts.take items.length, 0 ≤ y
+  | [], parts, b, b', ts, h => by
+    obtain ⟨rfl, _⟩ := evalAllotSources_nil_inv h
+    simp
+  | it :: rest, parts, b, b', ts, h => by
+    obtain ⟨p, ps, f, fb, b1, t, b2, ts', rfl, hs, ht, hr, rfl⟩ := evalAllotSources_cons_inv h
+    have hf := evalSource_nonneg env asset it.2 b f fb b1 hs
+    have h1 := takeFromSource_exact hf ht
+    obtain ⟨h2, h3, h4, h5⟩ := evalAllotSources_total env asset ma rest ps b2 b' ts' hr
+    refine ⟨?_, by simp; omega, ?_, ?_⟩
+    · intro u hu
+      rcases List.mem_cons.mp hu with rfl | hu
+      · exact ⟨h1.2.2.1, h1.2.2.2⟩
+      · exact h2 u hu
+    · simp [h4, h1.1]
+    · intro y hy
+      simp only [List.length_cons, List.take_succ_cons, List.mem_cons] at hy
+      rcases hy with rfl | hy
+      · exact h1.2.1
+      · exact h5 y hy
+
+theorem send_mon_src_ok {env : VEnv} {e : Expr} {s : Source} {d : Dest} {st st' : St} {ma : Asset} {mn : Int}
+    (h : evalSend env (.mon e) (.src s) d st = .ok st') (hm : evalMon env e = .ok (ma, mn)) :
+    SendOK ma mn st st' ∧ 0 ≤ mn := by
+  obtain ⟨a, f, fb, b1, ma', mn', taken, b2, _, hs, hm', ht, hfin⟩ := evalSend_mon_src_inv h
+  rw [hm] at hm'
+  simp only [Except.ok.injEq, Prod.mk.injEq] at hm'
+  obtain ⟨rfl, rfl⟩ := hm'
+  have hf := evalSource_nonneg env a s st.bal f fb b1 hs
+  obtain ⟨h1, h2, h3, h4⟩ := takeFromSource_exact hf ht
+  have := finishSend_ok hfin h3
+  rw [h1, h4] at this
+  exact ⟨this, h2⟩
+
+theorem send_all_src_ok {env : VEnv} {ae : Expr} {s : Source} {d : Dest} {st st' : St}
+    (h : evalSend env (.all ae) (.src s) d st = .ok st') :
+    ∃ a f fb b1, evalAsset env ae = .ok a ∧ evalSource env a s st.bal = .ok (f, fb, b1) ∧
+      SendOK f.asset (total f.parts) st st' := by
+  obtain ⟨a, f, fb, b1, ha, hs, hfin⟩ := evalSend_all_src_inv h
+  have hf := evalSource_nonneg env a s st.bal f fb b1 hs
+  have hok := finishSend_ok hfin hf
+  exact ⟨a, f, fb, b1, ha, hs, hok⟩
+
+theorem send_mon_allot_ok {env : VEnv} {e : Expr} {items : List (PortionSpec × Source)} {d : Dest} {st st' : St}
+    {ma : Asset} {mn : Int}
+    (h : evalSend env (.mon e) (.allot items) d st = .ok st') (hm : evalMon env e = .ok (ma, mn)) :
+    ∃ ps, resolvePortions env (items.map (·.1)) = .ok ps ∧ items.length ≤ ps.length ∧
+      SendOK ma ((allocate ps mn).take items.length).sum st st' ∧
+      ∀ y ∈ (allocate ps mn).take items.length, 0 ≤ y := by
+  obtain ⟨ma', mn', a, ps, ts, b1, f, hm', _, hp, hs, hasm, hfin⟩ := evalSend_mon_allot_inv h
+  rw [hm] at hm'
+  simp only [Except.ok.injEq, Prod.mk.injEq] at hm'
+  obtain ⟨rfl, rfl⟩ := hm'
+  obtain ⟨h1, h2, h3, h4⟩ := evalAllotSources_total env a ma items _ st.bal b1 ts hs
+  have hf : NonNeg f.parts := assemble_nonneg hasm (fun t ht => (h1 t ht).1)
+  have hfa : f.asset = ma := by
+    obtain ⟨⟨l, hl, hla⟩, _, _⟩ := assemble_ok hasm
+    rw [hla]; exact (h1 l (List.mem_of_getLast? hl)).2
+  have := finishSend_ok hfin hf
+  rw [assemble_total hasm, h3, hfa] at this
+  exact ⟨ps, hp, by rw [← allocate_length ps mn]; exact h2, this, h4⟩
+
+/-! ### whole runs: every posting is non-negative -/
+
+/-- postings only ever get appended, and what is appended is non-negative -/
+def Appends (ps ps' : List Posting) : Prop := ∃ new, ps' = ps ++ new ∧ ∀ p ∈ new, 0 ≤ p.amt
+
+theorem Appends.refl (ps : List Posting) : Appends ps ps := ⟨[], by simp, by simp⟩
+theorem Appends.trans {a b c : List Posting} (h1 : Appends a b) (h2 : Appends b c) : Appends a c := by
+  obtain ⟨n1, rfl, hn1⟩ := h1
+  obtain ⟨n2, rfl, hn2⟩ := h2
+  refine ⟨n1 ++ n2, by rw [List.append_assoc], ?_⟩
+  intro p hp
+  rcases List.mem_append.mp hp with hp | hp
+  · exact hn1 p hp
+  · exact hn2 p hp
+theorem SendOK.appends {a : Asset} {n : Int} {st st' : St} (h : SendOK a n st st') : Appends st.postings st'.postings := by
+  obtain ⟨new, _, hp, hn, _, _⟩ := h
+  exact ⟨new, hp, fun p hp => (hn p hp).1⟩
+
+theorem evalSend_appends {env : VEnv} {amt : SendAmt} {src : VSource} {d : Dest} {st st' : St}
+    (h : evalSend env amt src d st = .ok st') : Appends st.postings st'.postings := by
+  cases amt with
+  | mon e =>
+    cases src with
+    | src s =>
+      obtain ⟨a, f, fb, b1, ma, mn, taken, b2, _, _, hm, _, _⟩ := evalSend_mon_src_inv h
+      exact (send_mon_src_ok h hm).1.appends
+    | allot items =>
+      obtain ⟨ma, mn, a, ps, ts, b1, f, hm, _⟩ := evalSend_mon_allot_inv h
+      obtain ⟨ps, _, _, hok, _⟩ := send_mon_allot_ok h hm
+      exact hok.appends
+  | all ae =>
+    cases src with
+    | src s =>
+      obtain ⟨a, f, fb, b1, _, _, hok⟩ := send_all_src_ok h
+      exact hok.appends
+    | allot items => rw [evalSend_all_allot] at h; cases h
+
+theorem evalStmt_appends {env : VEnv} {s : Stmt} {F F' : Full} (h : evalStmt env s F = .ok F') :
+    Appends F.st.postings F'.st.postings := by
+  by_cases h1 : ∃ amt src d, s = .send amt src d
+  · obtain ⟨amt, src, d, rfl⟩ := h1
+    obtain ⟨st, hs, rfl⟩ := evalStmt_send_inv h
+    exact evalSend_appends hs
+  · by_cases h2 : ∃ e acc, s = .saveMon e acc
+    · obtain ⟨e, acc, rfl⟩ := h2
+      obtain ⟨ma, mn, a, t, _, _, _, _, rfl⟩ := evalStmt_saveMon_inv h
+      exact Appends.refl _
+    · by_cases h3 : ∃ ae acc, s = .saveAll ae acc
+      · obtain ⟨ae, acc, rfl⟩ := h3
+        obtain ⟨s, a, t, _, _, _, rfl⟩ := evalStmt_saveAll_inv h
+        exact Appends.refl _
+      · have := evalStmt_other_inv h (fun amt src d hs => h1 ⟨amt, src, d, hs⟩)
+          (fun e acc hs => h2 ⟨e, acc, hs⟩) (fun ae acc hs => h3 ⟨ae, acc, hs⟩)
+        rw [this]; exact Appends.refl _
+
+theorem evalStmts_appends {env : VEnv} : (ss : List Stmt) → (F F' : Full) → evalStmts env ss F = .ok F' →
+    Appends F.st.postings F'.st.postings
+  | [], F, F', h => by
+    simp only [evalStmts, Except.ok.injEq] at h
+    rw [← h]; exact Appends.refl _
+  | s :: ss, F, F', h => by
+    obtain ⟨F1, h1, h2⟩ := evalStmts_cons_inv h
+    exact (evalStmt_appends h1).trans (evalStmts_appends ss F1 F' h2)
+
+/-- `postings_nonneg`: an accepted run never produces a negative posting -/
+theorem run_postings_nonneg {P : Script} {req : Request} {store : Store} {r : Result}
+    (h : run P req store = .ok r) : ∀ p ∈ r.postings, 0 ≤ p.amt := by
+  obtain ⟨env, F, _, he, hp⟩ := run_inv h
+  obtain ⟨new, hn, hnn⟩ := evalStmts_appends P.stmts _ F he
+  rw [hp, hn]
+  intro p hp
+  simp only [List.nil_append] at hp
+  exact hnn p hp
+
+/-! ### ordered sources: front to back -/
+
+/-- `takeLoop` drains a funding front to back: every part of what is taken corresponds to the part of the
+funding at the same position, never exceeds it, and all the parts BEFORE a taken part are taken in full -/
+theorem takeLoop_drain (f : Parts) (n : Int) (j : Nat) (hj : j < (takeLoop f n).1.length) :
+    ∃ hjf : j < f.length, ((takeLoop f n).1[j]).acct = f[j].acct ∧ ((takeLoop f n).1[j]).amt ≤ f[j].amt ∧
+      ∀ i (hi : i < j), (takeLoop f n).1[i]'(by omega) = f[i]'(by omega) := by
+  induction f generalizing n j with
+  | nil => simp [takeLoop] at hj
+  | cons p ps ih =>
+    by_cases hn : n > 0
+    · by_cases hgt : p.amt > n
+      · have heq : (takeLoop (p :: ps) n).1 = [{ p with amt := n }] := by simp [takeLoop, hn, hgt]
+        have hj0 : j = 0 := by rw [heq] at hj; simpa using hj
+        subst hj0
+        refine ⟨by simp, ?_, ?_, fun i hi => absurd hi (by omega)⟩
+        · simp [heq]
+        · simp [heq]; omega
+      · have heq : (takeLoop (p :: ps) n).1 = p :: (takeLoop ps (n - p.amt)).1 := by simp [takeLoop, hn, hgt]
+        cases j with
+        | zero =>
+          refine ⟨by simp, ?_, ?_, fun i hi => absurd hi (by omega)⟩
+          · simp [heq]
+          · simp [heq]
+        | succ j =>
+          have hj' : j < (takeLoop ps (n - p.amt)).1.length := by rw [heq] at hj; simpa using hj
+          obtain ⟨hjf, h1, h2, h3⟩ := ih (n - p.amt) j hj'
+          refine ⟨by simp; omega, ?_, ?_, ?_⟩
+          · simpa [heq] using h1
+          · simpa [heq] using h2
+          · intro i hi
+            cases i with
+            | zero => simp [heq]
+            | succ i =>
+              have := h3 i (by omega)
+              simpa [heq] using this
+    · have heq : (takeLoop (p :: ps) n).1 = [] := by simp [takeLoop, hn]
+      rw [heq] at hj; simp at hj
+
+/-- the same for `take` of a positive amount (no zero-amount quirk) -/
+theorem take_drain {f t r : Parts} {n : Int} (hn : 0 < n) (h : take f n = some (t, r)) (j : Nat) (hj : j < t.length) :
+    ∃ hjf : j < f.length, (t[j]).acct = f[j].acct ∧ (t[j]).amt ≤ f[j].amt ∧
+      ∀ i (hi : i < j), t[i]'(by omega) = f[i]'(by omega) := by
+  obtain ⟨_, ht, _⟩ := take_eq_some h
+  have hpre : takePre f n = [] := by simp [takePre]; omega
+  rw [hpre, List.nil_append] at ht
+  subst ht
+  exact takeLoop_drain f n j hj
 
 end Num
